@@ -87,7 +87,7 @@ FbSet(f, i) ==
   /\ UNCHANGED <<bufs, fbs>>
 
 BIdx == 1..Len(bufs)
-Next == \/ \E off \in 0..1, n \in {0, 2, N - 1, N} : MkBuffer(off, n)
+Next == \/ \E off \in {0, 1, N}, n \in {0, 1, 2, N - 1, N} : MkBuffer(off, n)        \* empty, one byte, .., everything
         \/ \E b \in BIdx, i \in KeyIdx : GetIdx(b, i)
         \/ \E b \in BIdx, i \in KeyIdx : SetIdx(b, i, 33)
         \/ \E b \in BIdx, k \in Keys : GetSlice(b, k)
